@@ -13,8 +13,27 @@ Clauses of the property and where they are stated (all over `Rat`, any table siz
   * "every constraint exceeds its bound by at most (1 + 2 g)/B"        saddle_violation
   * L_high is the lambda-player's best response value                   lHigh_is_max
   * "whenever fitting stops before max_iter iterations, best_gap_ < nu" early_stop_lt_nu, best_iter_spec
+
+Extension (same namespace, sections below), all for every run length and ANY oracle answers:
+  * the MAIN LOOP as a state machine (Model/EGLoop.lean over Generated/EGLoopGen.lean)
+        loop_lambda_bounds, loop_lambdaEG_bounds (lambda_t, lambda_EG >= 0, L1 < B, from positivity of exp only),
+        loop_QEG_prob, loop_Q_prob, loop_weights_prob, loop_weights_padded_prob ("weights_ ... a probability vector"),
+        loop_eta_formula, loop_eta_nonincreasing, loop_iterations, loop_lengths, loop_oracle_calls,
+        loop_early_stop (the early-stop clause for the modelled loop itself)
+  * the two LPs of solve_linprog (Model/LinProg.lean over Generated/LinProgGen.lean)
+        lp_feasible_iff, lp_feasible_iff_distribution, lp_objective, lp_objective_ge_lagr, lp_lHigh_feasible,
+        lp_objective_ge_lHigh, dual_feasible_iff, dual_objective, lp_weak_duality, lp_gap_zero_optimal
+  * the certificate `eval_gap` computes ([1,2,5,10] loop, early break, best_h cache), in the property's words
+        evalGap_gap_le_classGap (ANY class-member oracle: reported gap <= true gap),
+        evalGap_Llow_le_class / classGap_le_evalGap_gap (exact oracle at mul = 1: true gap <= reported gap + _PRECISION),
+        precision_slack_needed (the slack cannot be dropped), evalGap_guarantees, evalGap_saddle_point,
+        loop_certificate, loop_guarantees, loop_guarantees_end_to_end (the two guarantees for the OUTPUT of the loop),
+        best_h_store, best_h_returned (cache), project_raises_L (the project_lambda step of _eval)
 -/
 import FairModel.Lemmas.Saddle
+import FairModel.Lemmas.EGLoop
+import FairModel.Lemmas.LinProg
+import FairModel.Lemmas.EGCert
 
 namespace C08
 open Saddle Finset
@@ -212,5 +231,694 @@ example : bestIter [3, 1, 2, 1 + 1/200000000, 5] = some 3 := by decide +kernel
 example : runLen (vec [9, 9, 9, 9, 9, 9, 1/2, 0]) 1 20 = 7 := by decide +kernel
 example : runLen (vec [0, 0, 0, 0, 0, 0]) 1 4 = 4 := by decide +kernel
 example : (project 1 (vec [3, 1])) 0 = 2 ∧ (project 1 (vec [3, 1])) 1 = 0 := by decide +kernel
+
+/-! ## The main loop (`Model/EGLoop.lean`): theorems for EVERY run length and ANY oracle answers
+
+`EGLoop.runN P O n` is the state after `n` passes through the body of `for t in range(0, self.max_iter)`
+(`run` = `max_iter` passes); `O.h` answers the base-learner calls, `O.lp` the (non-cached) LP solves, `P.e` is the
+exponential, of which only positivity is used.  The closed expressions are `Generated/EGLoopGen.lean`. -/
+section Loop
+open EGLoop
+
+/-- standing assumptions on the parameters: `B = 1/eps > 0`, `eta0 >= 0`, and `e` (np.exp) positive -/
+structure LoopHyp (P : Params) : Prop where
+  B_pos : 0 < P.B
+  e_pos : ∀ x, 0 < P.e x
+  eta0_nonneg : 0 ≤ P.eta0
+
+theorem etaInit_nonneg {P : Params} (h : LoopHyp P) : 0 ≤ EGLoopGen.etaInit P.eta0 P.B := by
+  unfold EGLoopGen.etaInit
+  exact div_nonneg h.eta0_nonneg (le_of_lt h.B_pos)
+
+theorem loop_inv {P : Params} (O : Oracles) (h : LoopHyp P) (n : Nat) : Inv P O (runN P O n) :=
+  inv_runN P O h.B_pos h.e_pos (etaInit_nonneg h) n
+
+/-- **(a)** every column of `lambda_vecs_EG_` is non-negative with L1 norm strictly below `B`
+    (uses only `0 < e`; the `1 +` of the denominator is what makes the bound strict). -/
+theorem loop_lambda_bounds {P : Params} (O : Oracles) (h : LoopHyp P) (n : Nat) :
+    ∀ v ∈ (runN P O n).lamCols, v.length = P.c.length ∧ (∀ x ∈ v, 0 ≤ x) ∧ v.sum < P.B :=
+  (loop_inv O h n).lam_good
+
+/-- **(b)** so is every running mean `lambda_EG` (the multiplier the EG certificate is evaluated at) -/
+theorem loop_lambdaEG_bounds {P : Params} (O : Oracles) (h : LoopHyp P) (n : Nat) :
+    ∀ v ∈ (runN P O n).lamEGs, v.length = P.c.length ∧ (∀ x ∈ v, 0 ≤ x) ∧ v.sum < P.B :=
+  (loop_inv O h n).lamEG_good
+
+/-- **(c, EG branch)** whenever the EG iterate was kept, `Qs[t] = Qsum / Qsum.sum()` is a probability vector —
+    no assumption on the LP solver. -/
+theorem loop_QEG_prob {P : Params} (O : Oracles) (h : LoopHyp P) (n : Nat) :
+    ∀ p ∈ (runN P O n).fromLP.zip (runN P O n).qs, p.1 = false → IsProb p.2 :=
+  (loop_inv O h n).qs_eg
+
+/-- **(c)** if every LP answer is a probability vector (= primal feasibility of the LP's equality row and
+    default bounds, `lp_feasible_iff` below), every entry of `Qs`, hence `weights_ = Qs[best_iter_]`, is one. -/
+theorem loop_Q_prob {P : Params} (O : Oracles) (h : LoopHyp P) (n : Nat) (hlp : ∀ k, IsProb (O.lp k).Q) :
+    ∀ q ∈ (runN P O n).qs, IsProb q :=
+  (loop_inv O h n).qs_prob hlp
+
+theorem loop_weights_prob {P : Params} (O : Oracles) (h : LoopHyp P) (hlp : ∀ k, IsProb (O.lp k).Q) (b : Nat)
+    (hb : bestIterOf (run P O) = some b) : IsProb ((run P O).qs.getD b []) := by
+  have hinv : Inv P O (run P O) := loop_inv O h P.maxIter
+  have hlt : b < (run P O).qs.length := by
+    rw [hinv.len_qs, ← hinv.len_gaps]; exact (bestIter_spec _ b hb).1
+  rw [List.getD_eq_getElem?_getD, List.getElem?_eq_getElem hlt]
+  exact loop_Q_prob O h P.maxIter hlp _ (List.getElem_mem hlt)
+
+/-- **(c)** the fitted `weights_` (after the zero padding to every stored classifier) is a probability vector -/
+theorem loop_weights_padded_prob {P : Params} (O : Oracles) (h : LoopHyp P) (hlp : ∀ k, IsProb (O.lp k).Q)
+    (hne : bestIterOf (run P O) ≠ none) : IsProb (weightsOf (run P O)) := by
+  unfold weightsOf
+  cases hb : bestIterOf (run P O) with
+  | none => exact absurd hb hne
+  | some b => exact padTo_isProb _ _ (loop_weights_prob O h hlp b hb)
+
+/-- **(d)** `eta = (eta0 / B) * 0.8^k`, `k` = number of shrink events ≤ number of regret checks ≤ `t` -/
+theorem loop_eta_formula {P : Params} (O : Oracles) (h : LoopHyp P) (n : Nat) :
+    (runN P O n).eta = EGLoopGen.etaInit P.eta0 P.B * EGGen.shrinkEta ^ (runN P O n).shrinks ∧
+    (runN P O n).shrinks ≤ (runN P O n).checks ∧ (runN P O n).checks ≤ (runN P O n).t :=
+  ⟨(loop_inv O h n).eta_eq, (loop_inv O h n).shrinks_le, (loop_inv O h n).checks_le⟩
+
+/-- **(d)** the learning rates used by successive iterations never increase and never exceed `eta0 / B` -/
+theorem loop_eta_nonincreasing {P : Params} (O : Oracles) (h : LoopHyp P) (n : Nat) :
+    (runN P O n).etas.Pairwise (fun a b => b ≤ a) ∧
+    ∀ x ∈ (runN P O n).etas, (runN P O n).eta ≤ x ∧ x ≤ EGLoopGen.etaInit P.eta0 P.B :=
+  ⟨(loop_inv O h n).etas_mono, (loop_inv O h n).etas_hist⟩
+
+/-- **(e)** at most `max_iter` iterations; `last_iter_ = len(Qs) - 1 = t - 1`; `best_iter_ ≤ last_iter_` -/
+theorem loop_iterations {P : Params} (O : Oracles) (h : LoopHyp P) :
+    (run P O).t ≤ P.maxIter ∧ lastIterOf (run P O) = ((run P O).t : Int) - 1 ∧
+    ∀ b, bestIterOf (run P O) = some b → (b : Int) ≤ lastIterOf (run P O) := by
+  have hinv : Inv P O (run P O) := loop_inv O h P.maxIter
+  refine ⟨hinv.t_le, ?_, ?_⟩
+  · unfold lastIterOf EGLoopGen.lastIter
+    rw [hinv.len_qs]
+  · intro b hb
+    have := (bestIter_spec _ b hb).1
+    unfold lastIterOf EGLoopGen.lastIter
+    rw [hinv.len_qs, ← hinv.len_gaps]
+    omega
+
+/-- **(f)** the loop invariant `len(gaps) = len(Qs) = len(gaps_EG) = #columns of lambda_vecs_EG_ = t` -/
+theorem loop_lengths {P : Params} (O : Oracles) (h : LoopHyp P) (n : Nat) :
+    (runN P O n).gaps.length = (runN P O n).t ∧ (runN P O n).qs.length = (runN P O n).t ∧
+    (runN P O n).gapsEG.length = (runN P O n).t ∧ (runN P O n).lamCols.length = (runN P O n).t ∧
+    (runN P O n).t ≤ n := by
+  have hinv := loop_inv O h n
+  refine ⟨hinv.len_gaps, hinv.len_qs, hinv.len_gapsEG, hinv.len_lamCols, ?_⟩
+  clear hinv
+  induction n with
+  | zero => exact Nat.le_refl _
+  | succ n ih =>
+    show (iter P O (runN P O n)).t ≤ n + 1
+    cases hgo : ((runN P O n).done || decide (P.maxIter ≤ (runN P O n).t))
+    · rw [iter_go P O _ hgo]
+      show (runN P O n).t + 1 ≤ n + 1
+      omega
+    · rw [iter_stop P O _ hgo]; omega
+
+/-- **(e')** `n_oracle_calls_ <= 9 * (last_iter_ + 1) <= 9 * max_iter` (one call of the loop body, at most four in each of
+    the two `eval_gap` calls), and `len(predictors_) <= n_oracle_calls_` — for any oracle, no assumption at all. -/
+theorem loop_oracle_calls (P : Params) (O : Oracles) :
+    (run P O).calls ≤ 9 * (run P O).t ∧ (run P O).hs.length ≤ (run P O).calls := by
+  have h := calls_runN P O P.maxIter
+  have hm : EGGen.muls.length = 4 := by simp [EGGen.muls]
+  rw [hm] at h
+  exact h
+
+/-- **Early stop, for the modelled loop itself**: if the run ends with fewer than `max_iter` iterations, the
+    `break` was taken, more than `_MIN_ITER` iterations ran, and the gap of the RETURNED iterate (`best_gap_`) is
+    strictly below `nu`. -/
+theorem loop_early_stop {P : Params} (O : Oracles) (h : LoopHyp P) (hlt : (run P O).t < P.maxIter) :
+    (run P O).done = true ∧ EGGen.minIter < (run P O).t ∧
+    ∃ b, bestIterOf (run P O) = some b ∧ (run P O).gaps.getD b 0 < P.nu := by
+  have hinv : Inv P O (run P O) := loop_inv O h P.maxIter
+  have hd : (run P O).done = true := by
+    cases hdn : (run P O).done
+    · have := runN_t P O P.maxIter (Nat.le_refl _) hdn
+      unfold run at hlt; omega
+    · rfl
+  obtain ⟨g, hg, hbc⟩ := hinv.done_spec hd
+  simp only [EGGen.breakCond, Bool.and_eq_true, decide_eq_true_eq] at hbc
+  refine ⟨hd, ?_, bestIter_lt_of_last_lt _ g P.nu hg hbc.1⟩
+  have hpos : 0 < (run P O).t := by
+    have : (run P O).gaps ≠ [] := by intro h0; rw [h0] at hg; simp at hg
+    have := List.length_pos_iff.mpr this
+    rw [hinv.len_gaps] at this; exact this
+  have := hbc.2
+  omega
+
+end Loop
+
+/-! ## The linear programmes of `solve_linprog` (`Model/LinProg.lean` over `Generated/LinProgGen.lean`)
+
+`T` is the table of the classifiers found so far (`self.errors`, `self.gammas`, `bound()`), the primal variable is
+`(Q, t)`, the dual variable `(lambda, mu)`. -/
+section LP
+open LinProg EGLoop
+
+/-- **(2a)** primal feasibility, spelled out: `Q >= 0`, `t >= 0` (scipy's default bounds), the equality row says
+    `sum Q = 1`, and inequality row `j` says `sum_i (gamma_j(h_i) - bound_j) Q_i - t <= 0`. -/
+theorem lp_feasible_iff (T : Table) (Q : List Rat) (t : Rat) (hQ : Q.length = T.nH) :
+    primalFeasible T (Q ++ [t]) = true ↔
+      (∀ x ∈ Q, 0 ≤ x) ∧ 0 ≤ t ∧ Q.sum = 1 ∧
+      ∀ j < T.nC, (∑ i ∈ range T.nH, (T.gam j i - T.c j) * vec Q i) - t ≤ 0 := by
+  unfold primalFeasible rowsLe rowsEq
+  rw [Aub_length, Aeq_eq, beq_eq]
+  simp only [Bool.and_eq_true, decide_eq_true_eq, List.all_eq_true, List.mem_range, List.length_append,
+    List.length_singleton, List.length_cons, List.length_nil, hQ, List.mem_append, List.mem_singleton]
+  constructor
+  · rintro ⟨⟨⟨_, hx⟩, hub⟩, heq⟩
+    refine ⟨fun x hx' => hx x (Or.inl hx'), hx t (Or.inr rfl), ?_, ?_⟩
+    · have := heq 0 (by omega)
+      simp only [List.getD_cons_zero] at this
+      rw [Aeq_dot T Q t hQ] at this
+      exact this
+    · intro j hj
+      have := hub j hj
+      rw [Aub_dot T Q t hQ j hj, bub_get] at this
+      exact this
+  · rintro ⟨hq, ht, hs, hv⟩
+    refine ⟨⟨⟨trivial, ?_⟩, ?_⟩, ?_⟩
+    · intro x hx
+      rcases hx with hx | rfl
+      · exact hq x hx
+      · exact ht
+    · intro j hj
+      rw [Aub_dot T Q t hQ j hj, bub_get]
+      exact hv j hj
+    · intro j hj
+      have : j = 0 := by omega
+      subst this
+      simp only [List.getD_cons_zero]
+      rw [Aeq_dot T Q t hQ]
+      exact hs
+
+/-- **(2a)** ... which means exactly: `Q` is a distribution over the stored classifiers and `t` dominates `0` and
+    every constraint violation of the mixture `Q`. -/
+theorem lp_feasible_iff_distribution (T : Table) (Q : List Rat) (t : Rat) (hQ : Q.length = T.nH) :
+    primalFeasible T (Q ++ [t]) = true ↔ IsProb Q ∧ 0 ≤ t ∧ ∀ j < T.nC, viol T (vec Q) j ≤ t := by
+  rw [lp_feasible_iff T Q t hQ]
+  constructor
+  · rintro ⟨hq, ht, hs, hv⟩
+    refine ⟨⟨hq, hs⟩, ht, fun j hj => ?_⟩
+    have := hv j hj
+    rw [row_sum_eq_viol T Q hQ hs j] at this
+    linarith
+  · rintro ⟨⟨hq, hs⟩, ht, hv⟩
+    refine ⟨hq, ht, hs, fun j hj => ?_⟩
+    rw [row_sum_eq_viol T Q hQ hs j]
+    linarith [hv j hj]
+
+/-- **(2a)** the objective is `error(Q) + B t` (`B` is the last cost entry) -/
+theorem lp_objective (T : Table) (B : Rat) (Q : List Rat) (t : Rat) (hQ : Q.length = T.nH) :
+    primalObj T B (Q ++ [t]) = errQ T (vec Q) + B * t := c_dot T B Q t hQ
+
+/-- **(2a)** every feasible point's objective is at least `L(Q, lambda)` for EVERY `lambda >= 0` with `|lambda|_1 <= B` -/
+theorem lp_objective_ge_lagr (T : Table) (B : Rat) (Q : List Rat) (t : Rat) (hQ : Q.length = T.nH)
+    (hf : primalFeasible T (Q ++ [t]) = true) (lam : Nat → Rat) (hl : ∀ j < T.nC, 0 ≤ lam j)
+    (hB : ∑ j ∈ range T.nC, lam j ≤ B) : lagr T (vec Q) lam ≤ primalObj T B (Q ++ [t]) := by
+  obtain ⟨_, ht, hv⟩ := (lp_feasible_iff_distribution T Q t hQ).mp hf
+  rw [lp_objective T B Q t hQ, lagr, sumTo_eq]
+  have h1 : ∑ j ∈ range T.nC, lam j * viol T (vec Q) j ≤ ∑ j ∈ range T.nC, lam j * t := by
+    apply Finset.sum_le_sum
+    intro j hj
+    have hj' := Finset.mem_range.mp hj
+    exact mul_le_mul_of_nonneg_left (hv j hj') (hl j hj')
+  rw [← Finset.sum_mul] at h1
+  have h2 : (∑ j ∈ range T.nC, lam j) * t ≤ B * t := mul_le_mul_of_nonneg_right hB ht
+  linarith
+
+/-- the smallest feasible slack for a mixture: `max(0, max_j violation_j)` -/
+def tStar (T : Table) (Q : Nat → Rat) : Rat := if maxViol T Q > 0 then maxViol T Q else 0
+
+/-- **(2a)** for a distribution `Q` the point `(Q, max(0, max violation))` is feasible and its objective is `L_high(Q)`
+    of the Saddle model — the value of the multiplier player's best response. -/
+theorem lp_lHigh_feasible (T : Table) (B : Rat) (Q : List Rat) (hQ : Q.length = T.nH) (hp : IsProb Q) :
+    primalFeasible T (Q ++ [tStar T (vec Q)]) = true ∧
+    primalObj T B (Q ++ [tStar T (vec Q)]) = lHigh T B (vec Q) := by
+  constructor
+  · rw [lp_feasible_iff_distribution T Q _ hQ]
+    refine ⟨hp, ?_, fun j hj => ?_⟩
+    · unfold tStar; split
+      · next h => exact le_of_lt h
+      · exact le_refl _
+    · have := viol_le_maxViol T (vec Q) j hj
+      unfold tStar; split
+      · exact this
+      · next h => exact le_trans this (not_lt.mp h)
+  · rw [lp_objective T B Q _ hQ]
+    unfold lHigh EGGen.lHigh tStar
+    by_cases h : maxViol T (vec Q) > 0
+    · simp [h]
+    · simp [h]
+
+/-- **(2a)** and no feasible point with the same `Q` does better (at least one constraint, `B >= 0`): the primal
+    optimum is `min_Q L_high(Q) = min_Q max_lambda L(Q, lambda)` over distributions on the stored classifiers. -/
+theorem lp_objective_ge_lHigh (T : Table) (B : Rat) (Q : List Rat) (t : Rat) (hQ : Q.length = T.nH) (hB : 0 ≤ B)
+    (hnC : 0 < T.nC) (hf : primalFeasible T (Q ++ [t]) = true) : lHigh T B (vec Q) ≤ primalObj T B (Q ++ [t]) := by
+  obtain ⟨_, ht, hv⟩ := (lp_feasible_iff_distribution T Q t hQ).mp hf
+  obtain ⟨j, hj, hm⟩ := maxViol_attained T (vec Q) hnC
+  rw [lp_objective T B Q t hQ]
+  unfold lHigh EGGen.lHigh
+  split
+  · have := hv j hj
+    rw [← hm] at this
+    nlinarith
+  · nlinarith
+
+/-- **(2b)** dual feasibility, spelled out: `lambda >= 0` (the bounds of the first `n_constraints` variables),
+    `sum lambda <= B` (the row of the primal slack column), and the free variable `mu` is at most
+    `err_i + sum_j lambda_j (gamma_j(h_i) - bound_j)` for every stored classifier `i` — it is a lower bound `L_low`. -/
+theorem dual_feasible_iff (T : Table) (B : Rat) (lam : List Rat) (mu : Rat) (hl : lam.length = T.nC) :
+    dualFeasible T B (lam ++ [mu]) = true ↔
+      (∀ j < T.nC, 0 ≤ vec lam j) ∧ ∑ j ∈ range T.nC, vec lam j ≤ B ∧ ∀ i < T.nH, mu ≤ lPure T (vec lam) i := by
+  have hrow_lo : ∀ i < T.nH, LinProg.dot ((dualA T).getD i []) (lam ++ [mu])
+      = -(∑ j ∈ range T.nC, vec lam j * (T.gam j i - T.c j)) + mu := by
+    intro i hi
+    rw [dualA_row_lo T i hi, dot_append_single _ _ _ _ (by simp [hl]), dot_range_map, ← Finset.sum_neg_distrib]
+    congr 1
+    · apply Finset.sum_congr rfl
+      intro j _; unfold vec; ring
+    · ring
+  have hrow_hi : LinProg.dot ((dualA T).getD T.nH []) (lam ++ [mu]) = ∑ j ∈ range T.nC, vec lam j := by
+    rw [dualA_row_hi T, dot_append_single _ _ _ _ (by simp [hl]), dot_range_map]
+    simp [vec]
+  unfold dualFeasible rowsLe
+  rw [dualA_length]
+  simp only [Bool.and_eq_true, decide_eq_true_eq, List.all_eq_true, List.mem_range, List.length_append,
+    List.length_singleton, hl, Bool.or_eq_true, LinProgGen.dualFree]
+  constructor
+  · rintro ⟨⟨_, hnn⟩, hrows⟩
+    refine ⟨fun j hj => ?_, ?_, fun i hi => ?_⟩
+    · rcases hnn j (by omega) with h | h
+      · omega
+      · rw [getD_append_single_lt lam mu j (by omega)] at h; exact h
+    · have := hrows T.nH (by omega)
+      rw [hrow_hi, dualB_get T B T.nH (le_refl _)] at this
+      simpa using this
+    · have := hrows i (by omega)
+      rw [hrow_lo i hi, dualB_get T B i (by omega), if_pos hi] at this
+      rw [lPure_eq T (vec lam) i hi]
+      linarith
+  · rintro ⟨hnn, hsum, hmu⟩
+    refine ⟨⟨trivial, fun j hj => ?_⟩, fun i hi => ?_⟩
+    · by_cases h : j = T.nC
+      · left; exact h
+      · right
+        rw [getD_append_single_lt lam mu j (by omega)]
+        exact hnn j (by omega)
+    · by_cases h : i < T.nH
+      · rw [hrow_lo i h, dualB_get T B i (by omega), if_pos h]
+        have := hmu i h
+        rw [lPure_eq T (vec lam) i h] at this
+        linarith
+      · have : i = T.nH := by omega
+        subst this
+        rw [hrow_hi, dualB_get T B T.nH (le_refl _)]
+        simpa using hsum
+
+/-- **(2b)** the code MINIMISES `dual_c . y = -mu` (`dual_c = (b_ub, -b_eq) = (0, ..., 0, -1)`), i.e. maximises `mu` -/
+theorem dual_objective (T : Table) (lam : List Rat) (mu : Rat) (hl : lam.length = T.nC) :
+    dualObj T (lam ++ [mu]) = -mu := by
+  unfold dualObj
+  rw [dualC_eq, dot_append_single _ _ _ _ (by simp [hl]), dot_replicate_zero]
+  ring
+
+/-- **(2b) weak duality for the generated pair**: any primal-feasible `(Q, t)` and dual-feasible `(lambda, mu)` satisfy
+    `-(dual_c . y) = mu <= L(Q, lambda) <= c . x = error(Q) + B t`.  So the generated dual really is the LP dual of
+    the generated primal, with the sign convention of the source. -/
+theorem lp_weak_duality (T : Table) (B : Rat) (Q : List Rat) (t : Rat) (lam : List Rat) (mu : Rat)
+    (hQ : Q.length = T.nH) (hl : lam.length = T.nC)
+    (hp : primalFeasible T (Q ++ [t]) = true) (hd : dualFeasible T B (lam ++ [mu]) = true) :
+    -(dualObj T (lam ++ [mu])) ≤ lagr T (vec Q) (vec lam) ∧
+    lagr T (vec Q) (vec lam) ≤ primalObj T B (Q ++ [t]) := by
+  obtain ⟨hnn, hsum, hmu⟩ := (dual_feasible_iff T B lam mu hl).mp hd
+  obtain ⟨hprob, _, _⟩ := (lp_feasible_iff_distribution T Q t hQ).mp hp
+  refine ⟨?_, lp_objective_ge_lagr T B Q t hQ hp (vec lam) hnn hsum⟩
+  rw [dual_objective T lam mu hl, neg_neg]
+  have hs : ∑ i ∈ range T.nH, vec Q i = 1 := by rw [← hQ, sum_vec]; exact hprob.2
+  rw [lagr_mix T (vec Q) (vec lam) hs]
+  have hq := (forall_mem_iff_vec Q).mp hprob.1
+  calc mu = ∑ i ∈ range T.nH, vec Q i * mu := by rw [← Finset.sum_mul, hs, one_mul]
+    _ ≤ ∑ i ∈ range T.nH, vec Q i * lPure T (vec lam) i := by
+      apply Finset.sum_le_sum
+      intro i hi
+      have hi' := Finset.mem_range.mp hi
+      exact mul_le_mul_of_nonneg_left (hmu i hi') (hq i (by omega))
+
+/-- **(2c)** for a primal-feasible `Q` and dual-feasible `lambda` the duality gap of the Saddle model is `>= 0`, and
+    if it is `0` then BOTH are optimal: no feasible primal point has a smaller objective than `(Q, t*)` and no
+    feasible dual point a larger `mu` than `L(Q, lambda)`.  (The converse — both optimal implies gap `0` — is LP
+    strong duality and is NOT proved here; the correspondence check observes `gap_LP` of every LP step.) -/
+theorem lp_gap_zero_optimal (T : Table) (B : Rat) (Q lam : List Rat) (hQ : Q.length = T.nH)
+    (hp : IsProb Q) (hnn : ∀ j < T.nC, 0 ≤ vec lam j) (hsum : ∑ j ∈ range T.nC, vec lam j ≤ B)
+    (hgap : trueGap T B (vec Q) (vec lam) = 0) :
+    (∀ (Q' : List Rat) (t' : Rat), Q'.length = T.nH → primalFeasible T (Q' ++ [t']) = true →
+        primalObj T B (Q ++ [tStar T (vec Q)]) ≤ primalObj T B (Q' ++ [t'])) ∧
+    (∀ (lam' : List Rat) (mu' : Rat), lam'.length = T.nC → dualFeasible T B (lam' ++ [mu']) = true →
+        mu' ≤ lagr T (vec Q) (vec lam)) := by
+  obtain ⟨h1, h2⟩ := gap_parts (le_of_eq hgap)
+  have hhigh := lagr_le_lHigh T B (vec Q) (vec lam) hnn hsum
+  have hlow := lLow_le_L T (vec Q) (vec lam) (List.range T.nH)
+  have hHeq : lHigh T B (vec Q) = lagr T (vec Q) (vec lam) := by linarith
+  have hLeq : lLow T (vec Q) (vec lam) (List.range T.nH) = lagr T (vec Q) (vec lam) := by linarith
+  constructor
+  · intro Q' t' hQ' hf'
+    rw [(lp_lHigh_feasible T B Q hQ hp).2, hHeq, ← hLeq]
+    obtain ⟨hprob', _, _⟩ := (lp_feasible_iff_distribution T Q' t' hQ').mp hf'
+    have hs' : ∑ i ∈ range T.nH, vec Q' i = 1 := by rw [← hQ', sum_vec]; exact hprob'.2
+    have hq' : ∀ i < T.nH, 0 ≤ vec Q' i := by
+      intro i hi; exact (forall_mem_iff_vec Q').mp hprob'.1 i (by omega)
+    exact le_trans (lLow_le_mix T (vec Q) (vec lam) (vec Q') hs' hq')
+      (lp_objective_ge_lagr T B Q' t' hQ' hf' (vec lam) hnn hsum)
+  · intro lam' mu' hl' hd'
+    have hfeas := (lp_lHigh_feasible T B Q hQ hp).1
+    have hw := lp_weak_duality T B Q (tStar T (vec Q)) lam' mu' hQ hl' hfeas hd'
+    rw [dual_objective T lam' mu' hl', neg_neg] at hw
+    have := le_trans hw.1 hw.2
+    rw [(lp_lHigh_feasible T B Q hQ hp).2, hHeq] at this
+    exact this
+
+end LP
+
+/-! ## The certificate computed by `eval_gap` (the `[1, 2, 5, 10]` loop with its early break), in the property's words
+
+`TC` is the table of the WHOLE hypothesis class; the store `hs` and every oracle answer are members of it.
+`evalGap X O hs k Q lamHat` is `eval_gap(Q, lambda_hat, nu)` run on the store `hs`, the oracle answering `O k, O (k+1), ...`. -/
+section Cert
+open EGLoop
+
+/-- the smallest Lagrangian value over the class, capped by `L` (what `L_low` would be with every class member as candidate) -/
+def classLow (TC : Table) (lamP : Nat → Rat) (L : Rat) : Rat :=
+  (List.range TC.nH).foldl (fun acc i => if lPure TC lamP i < acc then lPure TC lamP i else acc) L
+
+/-- the TRUE duality gap over the class of a pair whose `L`, `L_high` are given -/
+def classGap (TC : Table) (lamP : Nat → Rat) (L Lhigh : Rat) : Rat := EGGen.gapOf L (classLow TC lamP L) Lhigh
+
+theorem evalGap_fields (X : Ctx) (O : Nat → Hyp) (hs : List Hyp) (k : Nat) (Q lamHat : List Rat) :
+    (evalGap X O hs k Q lamHat).2.2.L = lagr (tableOf X.c hs) (vec Q) (projLam X lamHat) ∧
+    (evalGap X O hs k Q lamHat).2.2.Lhigh = lHigh (tableOf X.c hs) X.B (vec Q) ∧
+    (evalGap X O hs k Q lamHat).2.2.Llow ≤ (evalGap X O hs k Q lamHat).2.2.L := by
+  unfold evalGap
+  obtain ⟨h1, h2, h3⟩ := evalLoop_fixed X O lamHat EGGen.muls hs k
+    ⟨lagr (tableOf X.c hs) (vec Q) (projLam X lamHat), lagr (tableOf X.c hs) (vec Q) (projLam X lamHat),
+      lHigh (tableOf X.c hs) X.B (vec Q)⟩
+  exact ⟨h1, h2, by rw [h1]; exact h3⟩
+
+theorem gapOf_mono_low (L a b H : Rat) (h : a ≤ b) : EGGen.gapOf L b H ≤ EGGen.gapOf L a H := by
+  unfold EGGen.gapOf EGGen.max2
+  split <;> split <;> linarith
+
+/-- **(3a, any oracle)** whatever classifiers of the class the oracle answers with — exact or not —, the `L_low` of
+    `eval_gap` is at least the true minimum over the class (capped by `L`), hence the REPORTED gap never exceeds the
+    true duality gap of `(Q, lambda_hat)`: inexact oracles can only make the certificate optimistic, never pessimistic.
+    (`hL`: `L` itself is at least the class minimum — true for every distribution `Q` over stored class members.) -/
+theorem evalGap_gap_le_classGap (X : Ctx) (O : Nat → Hyp) (TC : Table) (hc : TC.nC = X.c.length) (hcc : TC.c = vec X.c)
+    (hO : ∀ k, ∃ i, IsMember TC (O k) i) (hs : List Hyp) (hmem : Members TC hs) (k : Nat) (Q lamHat : List Rat) :
+    (evalGap X O hs k Q lamHat).2.2.gap ≤
+      classGap TC (projLam X lamHat) (evalGap X O hs k Q lamHat).2.2.L (evalGap X O hs k Q lamHat).2.2.Lhigh := by
+  obtain ⟨hL, hH, _⟩ := evalGap_fields X O hs k Q lamHat
+  have hlow : classLow TC (projLam X lamHat) (evalGap X O hs k Q lamHat).2.2.L ≤ (evalGap X O hs k Q lamHat).2.2.Llow := by
+    have h := (evalLoop_members X O lamHat TC hc hcc hO
+      (classLow TC (projLam X lamHat) (lagr (tableOf X.c hs) (vec Q) (projLam X lamHat)))
+      (fun i hi => foldMin_le_mem _ _ _ i (List.mem_range.mpr hi)) EGGen.muls hs k
+      ⟨lagr (tableOf X.c hs) (vec Q) (projLam X lamHat), lagr (tableOf X.c hs) (vec Q) (projLam X lamHat),
+        lHigh (tableOf X.c hs) X.B (vec Q)⟩ hmem (foldMin_le_init _ _ _)).2
+    rw [hL]
+    exact h
+  unfold GapRes.gap classGap
+  exact gapOf_mono_low _ _ _ _ hlow
+
+/-- **(3a, exact oracle at mul = 1)** this is the ONLY inequality that needs exactness: if the answer to the FIRST
+    best-response call of `eval_gap` (the one at `1 * lambda_hat`) minimises `h_value` over the class, then `L_low` is at
+    most the class minimum PLUS `_PRECISION` — `best_h` returns a stored classifier instead of the oracle's answer
+    whenever the improvement is below `_PRECISION` — so the true gap is at most the reported gap plus `_PRECISION`.
+    The later multipliers `2, 5, 10` and the early break play no role. -/
+theorem evalGap_Llow_le_class (X : Ctx) (O : Nat → Hyp) (TC : Table) (hc : TC.nC = X.c.length) (hcc : TC.c = vec X.c)
+    (ha : AntiSym X TC) (hs : List Hyp) (hmem : Members TC hs) (k : Nat) (Q lamHat : List Rat)
+    (hOk : ∃ i, IsMember TC (O k) i) (hexact : ∀ i < TC.nH, storedValue lamHat (O k) ≤ classValue TC lamHat i) :
+    ∀ i < TC.nH, (evalGap X O hs k Q lamHat).2.2.Llow ≤ lPure TC (projLam X lamHat) i + EGGen.precision := by
+  intro i hi
+  have hmuls : EGGen.muls = 1 :: EGGen.muls.tail := by simp [EGGen.muls]
+  unfold evalGap
+  rw [hmuls]
+  refine le_trans (evalLoop_first X O lamHat 1 _ hs k _) ?_
+  rw [map_one_mul]
+  have hidx := bestH_idx_lt hs lamHat (O k)
+  have hmem' := bestH_members TC hs lamHat (O k) hmem hOk
+  obtain ⟨r, hr⟩ := hmem' _ (getD_mem _ _ hidx)
+  have h1 : lagr (tableOf X.c (bestH hs lamHat (O k)).1) (unit (bestH hs lamHat (O k)).2) (projLam X lamHat)
+      = lPure TC (projLam X lamHat) r := lPure_member TC X.c hc hcc _ (projLam X lamHat) _ hidx r hr
+  rw [h1, lPure_as_value X TC hc ha lamHat r hr.1, lPure_as_value X TC hc ha lamHat i hi,
+    ← storedValue_member TC _ r hr lamHat]
+  have := (bestH_value hs lamHat (O k)).1
+  linarith [hexact i hi]
+
+theorem classLow_ge (TC : Table) (lamP : Nat → Rat) (L m : Rat) (h1 : m ≤ L) (h2 : ∀ i < TC.nH, m ≤ lPure TC lamP i) :
+    m ≤ classLow TC lamP L :=
+  le_foldMin _ m _ L h1 (fun i hi => h2 i (List.mem_range.mp hi))
+
+/-- **(3a)** ... hence with an exact oracle at `mul = 1`: `true gap <= reported gap + _PRECISION`. -/
+theorem classGap_le_evalGap_gap (X : Ctx) (O : Nat → Hyp) (TC : Table) (hc : TC.nC = X.c.length) (hcc : TC.c = vec X.c)
+    (ha : AntiSym X TC) (hs : List Hyp) (hmem : Members TC hs) (k : Nat) (Q lamHat : List Rat)
+    (hOk : ∃ i, IsMember TC (O k) i) (hexact : ∀ i < TC.nH, storedValue lamHat (O k) ≤ classValue TC lamHat i) :
+    classGap TC (projLam X lamHat) (evalGap X O hs k Q lamHat).2.2.L (evalGap X O hs k Q lamHat).2.2.Lhigh
+      ≤ (evalGap X O hs k Q lamHat).2.2.gap + EGGen.precision := by
+  have hprec : (0 : Rat) ≤ EGGen.precision := by norm_num [EGGen.precision]
+  have hle := evalGap_Llow_le_class X O TC hc hcc ha hs hmem k Q lamHat hOk hexact
+  obtain ⟨_, _, hlowL⟩ := evalGap_fields X O hs k Q lamHat
+  have hcl : (evalGap X O hs k Q lamHat).2.2.Llow - EGGen.precision
+      ≤ classLow TC (projLam X lamHat) (evalGap X O hs k Q lamHat).2.2.L :=
+    classLow_ge TC _ _ _ (by linarith) (fun i hi => by linarith [hle i hi])
+  unfold classGap GapRes.gap EGGen.gapOf EGGen.max2
+  split <;> split <;> linarith
+
+/-- **(3b) the two guarantees, stated for the OUTPUT of `eval_gap`** (any store of class members, any `Q`, any
+    `lambda_hat` whose projected version is non-negative, exact oracle at `mul = 1`): with `g` the reported gap,
+    `error(Q) <= error(Q*) + 2 g + _PRECISION` for every feasible distribution `Q*` over the class, and every constraint
+    of `Q` exceeds its bound by at most `(1 + 2 g + _PRECISION)/B`. -/
+theorem evalGap_guarantees (X : Ctx) (O : Nat → Hyp) (TC : Table) (hc : TC.nC = X.c.length) (hcc : TC.c = vec X.c)
+    (ha : AntiSym X TC) (hs : List Hyp) (hmem : Members TC hs) (k : Nat) (Q lamHat : List Rat)
+    (hOk : ∃ i, IsMember TC (O k) i) (hexact : ∀ i < TC.nH, storedValue lamHat (O k) ≤ classValue TC lamHat i)
+    (hB : 0 < X.B) (hlam : ∀ j < TC.nC, 0 ≤ projLam X lamHat j) (Q' : Nat → Rat) (hf : Feasible TC Q') :
+    errQ (tableOf X.c hs) (vec Q) ≤ errQ TC Q' + 2 * (evalGap X O hs k Q lamHat).2.2.gap + EGGen.precision ∧
+    (0 ≤ errQ (tableOf X.c hs) (vec Q) → errQ TC Q' ≤ 1 → ∀ j < X.c.length,
+      gamQ (tableOf X.c hs) (vec Q) j - vec X.c j
+        ≤ (1 + 2 * (evalGap X O hs k Q lamHat).2.2.gap + EGGen.precision) / X.B) := by
+  obtain ⟨hL, hH, _⟩ := evalGap_fields X O hs k Q lamHat
+  have hle := evalGap_Llow_le_class X O TC hc hcc ha hs hmem k Q lamHat hOk hexact
+  have hg : (evalGap X O hs k Q lamHat).2.2.L - (evalGap X O hs k Q lamHat).2.2.Llow ≤ (evalGap X O hs k Q lamHat).2.2.gap ∧
+      (evalGap X O hs k Q lamHat).2.2.Lhigh - (evalGap X O hs k Q lamHat).2.2.L ≤ (evalGap X O hs k Q lamHat).2.2.gap := by
+    unfold GapRes.gap EGGen.gapOf
+    exact ⟨max2_ge_left _ _, max2_ge_right _ _⟩
+  -- L_low - precision is below the Lagrangian of every mixture over the class, in particular of Q'
+  have hmix : (evalGap X O hs k Q lamHat).2.2.Llow - EGGen.precision ≤ lagr TC Q' (projLam X lamHat) := by
+    rw [lagr_mix TC Q' _ hf.sum_one]
+    calc (evalGap X O hs k Q lamHat).2.2.Llow - EGGen.precision
+        = ∑ i ∈ range TC.nH, Q' i * ((evalGap X O hs k Q lamHat).2.2.Llow - EGGen.precision) := by
+          rw [← Finset.sum_mul, hf.sum_one, one_mul]
+      _ ≤ ∑ i ∈ range TC.nH, Q' i * lPure TC (projLam X lamHat) i := by
+          apply Finset.sum_le_sum
+          intro i hi
+          have hi' := Finset.mem_range.mp hi
+          exact mul_le_mul_of_nonneg_left (by linarith [hle i hi']) (hf.nonneg i hi')
+  have hfe := lagr_feasible_le TC (projLam X lamHat) Q' hlam hf.meets
+  have hhigh := lHigh_ge (tableOf X.c hs) X.B (le_of_lt hB) (vec Q)
+  rw [← hH] at hhigh
+  constructor
+  · linarith [hhigh.1]
+  · intro he0 he1 j hj
+    have := hhigh.2 j hj
+    rw [le_div_iff₀ hB]
+    unfold viol at this
+    have hcj : (tableOf X.c hs).c j = vec X.c j := rfl
+    rw [hcj] at this
+    linarith
+
+/-- **The saddle-point statement itself** (Agarwal et al. 2018, Theorem 1, for what `eval_gap` certifies): with
+    `g` the reported gap and `lambda^ = project(lambda_hat)` the multiplier the gap is evaluated at,
+    (i) no multiplier `lambda >= 0` with `|lambda|_1 <= B` raises the Lagrangian of `Q` above `L(Q, lambda^) + g`
+        — needs nothing about the oracle —, and
+    (ii) no distribution `Q'` over the class lowers it below `L(Q, lambda^) - g - _PRECISION`
+        — needs class-member answers and exactness of the one call at `mul = 1`. -/
+theorem evalGap_saddle_point (X : Ctx) (O : Nat → Hyp) (TC : Table) (hc : TC.nC = X.c.length) (hcc : TC.c = vec X.c)
+    (ha : AntiSym X TC) (hs : List Hyp) (hmem : Members TC hs) (k : Nat) (Q lamHat : List Rat)
+    (hOk : ∃ i, IsMember TC (O k) i) (hexact : ∀ i < TC.nH, storedValue lamHat (O k) ≤ classValue TC lamHat i) :
+    (∀ lam : Nat → Rat, (∀ j < X.c.length, 0 ≤ lam j) → ∑ j ∈ range X.c.length, lam j ≤ X.B →
+      lagr (tableOf X.c hs) (vec Q) lam
+        ≤ lagr (tableOf X.c hs) (vec Q) (projLam X lamHat) + (evalGap X O hs k Q lamHat).2.2.gap) ∧
+    (∀ Q' : Nat → Rat, ∑ i ∈ range TC.nH, Q' i = 1 → (∀ i < TC.nH, 0 ≤ Q' i) →
+      lagr (tableOf X.c hs) (vec Q) (projLam X lamHat) - (evalGap X O hs k Q lamHat).2.2.gap - EGGen.precision
+        ≤ lagr TC Q' (projLam X lamHat)) := by
+  obtain ⟨hL, hH, _⟩ := evalGap_fields X O hs k Q lamHat
+  have hle := evalGap_Llow_le_class X O TC hc hcc ha hs hmem k Q lamHat hOk hexact
+  have hg : (evalGap X O hs k Q lamHat).2.2.L - (evalGap X O hs k Q lamHat).2.2.Llow ≤ (evalGap X O hs k Q lamHat).2.2.gap ∧
+      (evalGap X O hs k Q lamHat).2.2.Lhigh - (evalGap X O hs k Q lamHat).2.2.L ≤ (evalGap X O hs k Q lamHat).2.2.gap := by
+    unfold GapRes.gap EGGen.gapOf
+    exact ⟨max2_ge_left _ _, max2_ge_right _ _⟩
+  constructor
+  · intro lam hl hB
+    have := lagr_le_lHigh (tableOf X.c hs) X.B (vec Q) lam hl hB
+    rw [← hH] at this
+    rw [← hL]
+    linarith [hg.2]
+  · intro Q' hsum hnn
+    rw [lagr_mix TC Q' _ hsum, ← hL]
+    calc (evalGap X O hs k Q lamHat).2.2.L - (evalGap X O hs k Q lamHat).2.2.gap - EGGen.precision
+        ≤ (evalGap X O hs k Q lamHat).2.2.Llow - EGGen.precision := by linarith [hg.1]
+      _ = ∑ i ∈ range TC.nH, Q' i * ((evalGap X O hs k Q lamHat).2.2.Llow - EGGen.precision) := by
+          rw [← Finset.sum_mul, hsum, one_mul]
+      _ ≤ ∑ i ∈ range TC.nH, Q' i * lPure TC (projLam X lamHat) i := by
+          apply Finset.sum_le_sum
+          intro i hi
+          have hi' := Finset.mem_range.mp hi
+          exact mul_le_mul_of_nonneg_left (by linarith [hle i hi']) (hnn i hi')
+
+/-- **(3b) for the OUTPUT of the modelled loop, any run, any oracle answers from the class**: the returned gap
+    `best_gap_ = gaps[best_iter_]` IS the gap `eval_gap` computed for the returned `weights_ = Qs[best_iter_]` in one
+    specific call (store `c.hs`, first oracle call number `c.k`, multiplier `c.lamHat` = that iteration's `lambda_EG` or
+    the LP's dual solution — also when the LP result came from the `last_linprog_n_hs` cache). -/
+theorem loop_certificate {P : Params} (O : Oracles) (TC : Table) (hO : ∀ k, ∃ i, IsMember TC (O.h k) i) (b : Nat)
+    (hb : bestIterOf (run P O) = some b) :
+    ∃ c : Cert, (run P O).gaps.getD b 0 = certGap P O c ∧ (run P O).qs.getD b [] = c.Q ∧ Members TC c.hs := by
+  have hinv : CertInv P O TC (run P O) := certInv_runN P O TC hO P.maxIter
+  have hlt : b < (run P O).gaps.length := (bestIter_spec _ b hb).1
+  have hlen : (run P O).certs.length = (run P O).gaps.length := by rw [hinv.gaps_eq]; simp
+  have hlt' : b < (run P O).certs.length := by omega
+  obtain ⟨h1, h2, h3⟩ := hinv.cert_ok _ (List.getElem_mem hlt')
+  refine ⟨((run P O).certs[b]).1, ?_, ?_, h3⟩
+  · rw [← h1, hinv.gaps_eq]
+    simp [List.getD_eq_getElem?_getD, hlt']
+  · rw [← h2, hinv.qs_eq]
+    simp [List.getD_eq_getElem?_getD, hlt']
+
+/-- **(3b) the property's two guarantees for the output of the modelled loop.**  With `g = best_gap_`,
+    `Q = weights_`: if the oracle's answers are class members, the ONE oracle call at `mul = 1` of the certifying
+    `eval_gap` call was exact, and the (projected) multiplier of that call is non-negative, then for every feasible
+    distribution `Q*` over the class   `error(Q) <= error(Q*) + 2 g + _PRECISION`   and every constraint of `Q`
+    exceeds its bound by at most `(1 + 2 g + _PRECISION)/B`.  (`_PRECISION = 1e-8` is the cache tolerance of `best_h`;
+    `precision_slack_needed` below shows it cannot be dropped.) -/
+theorem loop_guarantees {P : Params} (O : Oracles) (TC : Table) (hB : 0 < P.B) (hc : TC.nC = P.c.length)
+    (hcc : TC.c = vec P.c) (ha : AntiSym P.ctx TC) (hO : ∀ k, ∃ i, IsMember TC (O.h k) i) (b : Nat)
+    (hb : bestIterOf (run P O) = some b) :
+    ∃ c : Cert, (run P O).gaps.getD b 0 = certGap P O c ∧ (run P O).qs.getD b [] = c.Q ∧
+      ((∀ i < TC.nH, storedValue c.lamHat (O.h c.k) ≤ classValue TC c.lamHat i) →
+       (∀ j < TC.nC, 0 ≤ projLam P.ctx c.lamHat j) → ∀ Q', Feasible TC Q' →
+        errQ (tableOf P.c c.hs) (vec ((run P O).qs.getD b []))
+          ≤ errQ TC Q' + 2 * (run P O).gaps.getD b 0 + EGGen.precision ∧
+        (0 ≤ errQ (tableOf P.c c.hs) (vec ((run P O).qs.getD b [])) → errQ TC Q' ≤ 1 → ∀ j < P.c.length,
+          gamQ (tableOf P.c c.hs) (vec ((run P O).qs.getD b [])) j - vec P.c j
+            ≤ (1 + 2 * (run P O).gaps.getD b 0 + EGGen.precision) / P.B)) := by
+  obtain ⟨c, h1, h2, h3⟩ := loop_certificate O TC hO b hb
+  refine ⟨c, h1, h2, ?_⟩
+  intro hexact hlam Q' hf
+  rw [h1, h2]
+  exact evalGap_guarantees P.ctx O.h TC hc hcc ha c.hs h3 c.k c.Q c.lamHat (hO c.k) hexact hB hlam Q' hf
+
+/-- **(3b) end to end**: as `loop_guarantees`, with the non-negativity of the certifying multiplier DERIVED — for an EG
+    iterate from `loop_lambdaEG_bounds` (positivity of `exp`), for an LP iterate from the dual LP's bounds
+    (`hlpl`: every LP answer has `lambda >= 0`, which is part of `dual_feasible_iff`).  What remains assumed is exactly
+    what the property assumes: class-member answers and exactness of one oracle call. -/
+theorem loop_guarantees_end_to_end {P : Params} (O : Oracles) (TC : Table) (h : LoopHyp P) (hc : TC.nC = P.c.length)
+    (hcc : TC.c = vec P.c) (ha : AntiSym P.ctx TC) (hO : ∀ k, ∃ i, IsMember TC (O.h k) i)
+    (hlpl : ∀ k, ∀ x ∈ (O.lp k).lam, 0 ≤ x) (b : Nat) (hb : bestIterOf (run P O) = some b) :
+    ∃ c : Cert, (run P O).gaps.getD b 0 = certGap P O c ∧ (run P O).qs.getD b [] = c.Q ∧
+      ((∀ i < TC.nH, storedValue c.lamHat (O.h c.k) ≤ classValue TC c.lamHat i) → ∀ Q', Feasible TC Q' →
+        errQ (tableOf P.c c.hs) (vec ((run P O).qs.getD b []))
+          ≤ errQ TC Q' + 2 * (run P O).gaps.getD b 0 + EGGen.precision ∧
+        (0 ≤ errQ (tableOf P.c c.hs) (vec ((run P O).qs.getD b [])) → errQ TC Q' ≤ 1 → ∀ j < P.c.length,
+          gamQ (tableOf P.c c.hs) (vec ((run P O).qs.getD b [])) j - vec P.c j
+            ≤ (1 + 2 * (run P O).gaps.getD b 0 + EGGen.precision) / P.B)) := by
+  have hinv : CertInv P O TC (run P O) := certInv_runN P O TC hO P.maxIter
+  have hlam : LamInv (run P O) := lamInv_runN P O h.B_pos h.e_pos (etaInit_nonneg h) hlpl P.maxIter
+  have hlt : b < (run P O).gaps.length := (bestIter_spec _ b hb).1
+  have hlen : (run P O).certs.length = (run P O).gaps.length := by rw [hinv.gaps_eq]; simp
+  have hlt' : b < (run P O).certs.length := by omega
+  obtain ⟨h1, h2, h3⟩ := hinv.cert_ok _ (List.getElem_mem hlt')
+  have h4 := hlam.certs_nonneg _ (List.getElem_mem hlt')
+  have hg : (run P O).gaps.getD b 0 = certGap P O ((run P O).certs[b]).1 := by
+    rw [← h1, hinv.gaps_eq]; simp [List.getD_eq_getElem?_getD, hlt']
+  have hq : (run P O).qs.getD b [] = ((run P O).certs[b]).1.Q := by
+    rw [← h2, hinv.qs_eq]; simp [List.getD_eq_getElem?_getD, hlt']
+  refine ⟨((run P O).certs[b]).1, hg, hq, ?_⟩
+  intro hexact Q' hf
+  rw [hg, hq]
+  exact evalGap_guarantees P.ctx O.h TC hc hcc ha _ h3 _ _ _ (hO _) hexact h.B_pos
+    (fun j _ => projLam_nonneg P.ctx _ h4 j) Q' hf
+
+/-- the `_PRECISION` slack is real: stored `h0` (value 1/2), oracle answers the true minimiser `h1` (value 1/2 - 5e-9);
+    the improvement is below `_PRECISION`, `best_h` returns `h0`, and `eval_gap` reports gap `0` although the true
+    duality gap of `(Q = h0, lambda = 0)` over the class `{h0, h1}` is `5e-9`. -/
+def slackX : Ctx := ⟨4, [1/10], false, 1/100⟩
+def slackTC : Table := mkTable [1/2, 1/2 - 5/1000000000] [[0, 0]] [1/10]
+theorem precision_slack_needed :
+    (evalGap slackX (fun _ => ⟨1/2 - 5/1000000000, [0]⟩) [⟨1/2, [0]⟩] 0 [1] [0]).2.2.gap = 0 ∧
+    classGap slackTC (projLam slackX [0]) (1/2) (1/2) = 5/1000000000 := by
+  constructor <;> decide +kernel
+
+/-! ### (4) the `best_h` cache -/
+
+/-- the store is append-only; a classifier is appended exactly when the oracle's answer beats EVERY stored value at
+    the multiplier asked by more than `_PRECISION` (so the values of successive additions, each under its own multiplier,
+    strictly improve on everything stored before), and then it is the returned index -/
+theorem best_h_store (hs : List Hyp) (lam : List Rat) (h : Hyp) :
+    ((bestH hs lam h).1 = hs ∧ (bestH hs lam h).2 < hs.length) ∨
+    ((bestH hs lam h).1 = hs ++ [h] ∧ (bestH hs lam h).2 = hs.length ∧
+      ∀ g ∈ hs, storedValue lam h < storedValue lam g - EGGen.precision) := bestH_store hs lam h
+
+/-- the returned index always refers to a stored classifier, whose `h_value` at the multiplier asked is within
+    `_PRECISION` of the oracle's answer and minimal over the store -/
+theorem best_h_returned (hs : List Hyp) (lam : List Rat) (h : Hyp) :
+    (bestH hs lam h).2 < (bestH hs lam h).1.length ∧
+    storedValue lam ((bestH hs lam h).1.getD (bestH hs lam h).2 default) ≤ storedValue lam h + EGGen.precision ∧
+    ∀ g ∈ (bestH hs lam h).1,
+      storedValue lam ((bestH hs lam h).1.getD (bestH hs lam h).2 default) ≤ storedValue lam g :=
+  ⟨bestH_idx_lt hs lam h, (bestH_value hs lam h).1, (bestH_value hs lam h).2⟩
+
+/-! ### (3c) the `project_lambda` step inside `_eval` -/
+
+/-- for a uniform non-negative bound and a mixture whose `-` constraint values are the negated `+` values (every
+    UtilityParity moment with ratio 1), projecting a non-negative multiplier never lowers the Lagrangian of that `Q`:
+    `L(Q, project(lambda)) >= L(Q, lambda)`; `L_high` does not depend on the multiplier, so the `L_high - L` half of the
+    gap can only shrink, and by `project_preserves_best_response` the best responses are unchanged. -/
+theorem project_raises_L (T : Table) (m : Nat) (c0 : Rat) (Q lam : Nat → Rat) (hn : T.nC = m + m) (hc0 : 0 ≤ c0)
+    (hc : ∀ j < m + m, T.c j = c0) (hg : ∀ j < m, gamQ T Q (m + j) = -gamQ T Q j) (hl : ∀ j < m + m, 0 ≤ lam j) :
+    lagr T Q lam ≤ lagr T Q (project m lam) ∧
+    lHigh T B Q - lagr T Q (project m lam) ≤ lHigh T B Q - lagr T Q lam := by
+  have key : lagr T Q lam ≤ lagr T Q (project m lam) := by
+    unfold lagr
+    rw [sumTo_eq, sumTo_eq, hn]
+    have e1 : ∀ l : Nat → Rat, ∑ j ∈ range (m + m), l j * viol T Q j
+        = ∑ j ∈ range (m + m), l j * gamQ T Q j - c0 * ∑ j ∈ range (m + m), l j := by
+      intro l
+      rw [Finset.mul_sum, ← Finset.sum_sub_distrib]
+      apply Finset.sum_congr rfl
+      intro j hj
+      unfold viol
+      rw [hc j (Finset.mem_range.mp hj)]; ring
+    rw [e1 lam, e1 (project m lam), project_dot m lam (gamQ T Q) hg]
+    have := Saddle.project_l1_le m lam hl
+    nlinarith
+  exact ⟨key, by linarith⟩
+
+end Cert
+
+/-! Non-vacuity for the loop: a 2-constraint run with a positive "exponential", two oracle answers. -/
+def exP : EGLoop.Params := ⟨4, 2, 1/100, 3, false, true, [1/10, 1/10], fun x => 1 + x * x⟩
+def exO : EGLoop.Oracles := ⟨fun k => if k % 2 = 0 then ⟨0, [1/2, -1/2]⟩ else ⟨1/2, [0, 0]⟩, fun _ => default⟩
+example : LoopHyp exP := ⟨by decide +kernel, fun x => by show 0 < 1 + x * x; nlinarith [mul_self_nonneg x], by decide +kernel⟩
+example : (EGLoop.run exP exO).t = 3 := by decide +kernel
+example : (EGLoop.run exP exO).lamCols.head? = some [4/3, 4/3] := by decide +kernel
+example : ((EGLoop.run exP exO).qs.getD 2 []).sum = 1 := by decide +kernel
+example : (EGLoop.run exP exO).certs.length = 3 := by decide +kernel
+
+/-! Non-vacuity for the LP theorems on the table `exT` (B = 4): `(Q, t) = (1/5, 4/5, 0)` and `(lambda, mu) = (1, 0, 2/5)`
+    are feasible with equal objectives `2/5`, hence both optimal by `lp_weak_duality`. -/
+example : LinProg.primalFeasible exT [1/5, 4/5, 0] = true := by decide +kernel
+example : LinProg.dualFeasible exT 4 [1, 0, 2/5] = true := by decide +kernel
+example : LinProg.primalObj exT 4 [1/5, 4/5, 0] = 2/5 ∧ LinProg.dualObj exT [1, 0, 2/5] = -(2/5) := by
+  constructor <;> decide +kernel
+example : LinProg.primalFeasible exT [1, 0, 0] = false := by decide +kernel
+example : LinProg.Aub exT = [[2/5, -1/10, -1], [-3/5, -1/10, -1]] := by decide +kernel
 
 end C08
